@@ -91,7 +91,9 @@ def obst_ops(kind):
     def enabled(model):
         ops = [["q"], ["o.tr", [100.0, 0.0], PI / 2], ["o.tr", [0.0, 0.0], 0.3], ["p.tr", [100.0, 0.0], PI / 2], ["t.tr", [0.0, 50.0], 0.3],
                ["p.shape=", ["circle", 1.5, 0.0, 0.0]], ["p.shape=", ["rect", 6.0, 1.0, 0.0, 0.0, 0.0]], ["p.traj=", "B"], ["p.traj=", "C"],
-               ["o.update_prediction", "B"], ["o.prediction=", "C"], ["o.prediction=", None], ["o.initial_state=", [40.0, 40.0, 1.0]]]
+               ["o.update_prediction", "B"], ["o.prediction=", "C"], ["o.prediction=", None], ["o.initial_state=", [40.0, 40.0, 1.0]],
+               # a new initial state at the SAME position with another heading (turning on the spot), assigned and pushed with history
+               ["o.initial_state=", "turn"], ["o.update_initial_state", 2, "turn"]]
         for k in (1, 2, 3):
             ops.append(["o.update_initial_state", k])
         return ops
@@ -135,12 +137,21 @@ def obst_step(kind):
                 o.update_prediction(spec.mk_prediction(TRAJ[op[1]](mk)))
             elif k == "o.prediction=":
                 o.prediction = None if op[1] is None else spec.mk_prediction(TRAJ[op[1]](mk))
+            elif k == "o.initial_state=" and op[1] == "turn":
+                cur = o.initial_state
+                o.initial_state = spec.mk_state(spec.init_state(x=float(cur.position[0]), y=float(cur.position[1]), o=float(cur.orientation) + 0.9 - (6.0 if cur.orientation > 5.0 else 0.0),
+                                                                t=cur.time_step))
             elif k == "o.initial_state=":
                 o.initial_state = spec.mk_state(spec.init_state(x=op[1][0], y=op[1][1], o=op[1][2], t=o.initial_state.time_step))
             elif k == "o.update_initial_state":
                 old = snap.state(o.initial_state)
                 t_new = o.initial_state.time_step + 1
-                o.update_initial_state(spec.mk_state(spec.init_state(x=3.0 * t_new, y=-2.0, o=0.1 * t_new, t=t_new)), max_history_length=op[1])
+                if len(op) > 2:
+                    cur = o.initial_state
+                    new = spec.init_state(x=float(cur.position[0]), y=float(cur.position[1]), o=float(cur.orientation) + 0.9 - (6.0 if cur.orientation > 5.0 else 0.0), t=t_new)
+                else:
+                    new = spec.init_state(x=3.0 * t_new, y=-2.0, o=0.1 * t_new, t=t_new)
+                o.update_initial_state(spec.mk_state(new), max_history_length=op[1])
                 hist = (hist + [old])[-op[1]:]
             obs = ("ok", None)
         except Exception as e:
